@@ -597,3 +597,88 @@ fn c05_altscreen_level_order() {
     }
     kani::cover!(alt && kitty && !enable);
 }
+
+// ---- colours of Face / FaceModify: WHICH colour goes to WHICH SGR role, in which order, at which depth
+// color_sgr_encode (its digits go through core::fmt) is replaced by a recorder that pushes one marker chunk per call
+static mut C_CALLS: usize = 0;
+static mut C_ROLE: [u8; 4] = [0; 4];
+static mut C_RGBA: [[u8; 4]; 4] = [[0; 4]; 4];
+static mut C_DEPTH: [u8; 4] = [0; 4];
+fn depth_code(d: ColorDepth) -> u8 { match d { ColorDepth::TrueColor => 0, ColorDepth::EightBit => 1, ColorDepth::Gray => 2 } }
+fn stub_color_sgr_encode<C: Color>(chunks: &mut Chunks, color: C, depth: ColorDepth, sgr_color_type: SGRColorType) -> Result<(), Error>
+where
+    LinColor: From<C>,
+{
+    let role = match sgr_color_type { SGRColorType::Foreground => b'F', SGRColorType::Background => b'B', SGRColorType::Underline => b'U' };
+    unsafe { if C_CALLS < 4 { C_ROLE[C_CALLS] = role; C_RGBA[C_CALLS] = color.to_rgba(); C_DEPTH[C_CALLS] = depth_code(depth); } C_CALLS += 1; }
+    chunks.push(&[role]);
+    Ok(())
+}
+
+//# kind=complete tier=quick props=C05,C06 fns=TTYEncoder::encode | Face with a foreground and a background colour (any values) and no attributes: one SGR sequence `ESC[0;F;Bm` - reset first, then the foreground colour in the foreground role, then the background colour in the background role, each encoded at the terminal's colour depth (the digits of a colour are color_sgr_encode's, replaced by a recorder)
+#[kani::proof]
+#[kani::unwind(12)]
+#[kani::stub(color_sgr_encode, stub_color_sgr_encode)]
+fn c05_face_colour_roles() {
+    let caps = any_caps();
+    let depth = depth_code(caps.depth);
+    let mut enc = TTYEncoder::new(caps);
+    let mut out = Sink::new();
+    let fg = RGBA::new(kani::any(), kani::any(), kani::any(), kani::any());
+    let bg = RGBA::new(kani::any(), kani::any(), kani::any(), kani::any());
+    let (has_fg, has_bg) = (true, true);   // (symbolic presence flags double the Vec-growth paths of Chunks: no verdict in 10 min)
+    let face = Face::default().with_fg(if has_fg { Some(fg) } else { None }).with_bg(if has_bg { Some(bg) } else { None });
+    let r = enc.encode(&mut out, TerminalCommand::Face(face));
+    assert!(r.is_ok() && out.fmt_calls == 0);
+    std::mem::forget(r); std::mem::forget(enc);
+    // expected bytes: ESC [ 0 (;F)? (;B)? m
+    let mut want = [0u8; 8]; let mut n = 0;
+    for b in [0x1bu8, b'[', b'0'] { want[n] = b; n += 1; }
+    if has_fg { want[n] = b';'; want[n + 1] = b'F'; n += 2; }
+    if has_bg { want[n] = b';'; want[n + 1] = b'B'; n += 2; }
+    want[n] = b'm'; n += 1;
+    assert!(out.len == n);
+    let mut i = 0; while i < n { assert!(out.bytes[i] == want[i]); i += 1; }
+    unsafe {
+        assert!(C_CALLS == has_fg as usize + has_bg as usize);
+        let mut k = 0;
+        if has_fg { assert!(C_ROLE[k] == b'F' && C_RGBA[k] == fg.to_rgba() && C_DEPTH[k] == depth); k += 1; }
+        if has_bg { assert!(C_ROLE[k] == b'B' && C_RGBA[k] == bg.to_rgba() && C_DEPTH[k] == depth); }
+    }
+    kani::cover!(has_fg && has_bg);
+}
+
+//# kind=complete tier=quick props=C05,C06 fns=TTYEncoder::encode | FaceModify with foreground, background and underline colours (any values) and nothing else: `ESC[F;B;Um` with each colour in its own role and order, at the terminal's depth
+#[kani::proof]
+#[kani::unwind(12)]
+#[kani::stub(color_sgr_encode, stub_color_sgr_encode)]
+fn c05_face_modify_colour_roles() {
+    let caps = any_caps();
+    let depth = depth_code(caps.depth);
+    let mut enc = TTYEncoder::new(caps);
+    let mut out = Sink::new();
+    let cs = [RGBA::new(kani::any(), kani::any(), kani::any(), kani::any()), RGBA::new(kani::any(), kani::any(), kani::any(), kani::any()), RGBA::new(kani::any(), kani::any(), kani::any(), kani::any())];
+    let has: [bool; 3] = [true, true, true];
+    let m = FaceModify { reset: false, fg: if has[0] { Some(cs[0]) } else { None }, bg: if has[1] { Some(cs[1]) } else { None }, underline: None,
+                         underline_color: if has[2] { Some(cs[2]) } else { None }, bold: None, italic: None, blink: None, strike: None };
+    let r = enc.encode(&mut out, TerminalCommand::FaceModify(m));
+    assert!(r.is_ok() && out.fmt_calls == 0);
+    std::mem::forget(r); std::mem::forget(enc);
+    let roles = [b'F', b'B', b'U'];
+    let count = has[0] as usize + has[1] as usize + has[2] as usize;
+    unsafe { assert!(C_CALLS == count); }
+    if count == 0 { assert!(out.len == 0); } else {
+        assert!(out.len == 2 + 2 * count && out.bytes[0] == 0x1b && out.bytes[1] == b'[' && out.bytes[out.len - 1] == b'm');
+        let mut k = 0; let mut j = 0;
+        while j < 3 {
+            if has[j] {
+                assert!(out.bytes[2 + 2 * k] == roles[j]);
+                if k + 1 < count { assert!(out.bytes[3 + 2 * k] == b';'); }
+                unsafe { assert!(C_ROLE[k] == roles[j] && C_RGBA[k] == cs[j].to_rgba() && C_DEPTH[k] == depth); }
+                k += 1;
+            }
+            j += 1;
+        }
+    }
+    kani::cover!(count == 3);
+}
